@@ -20,6 +20,8 @@ pub struct Ctx {
     pub engines: Vec<&'static str>,
     pub counter: u64,
     pub group: Option<i64>,
+    /// data of an earlier round: the next `enc_event` runs it first on the same object (no reset in between)
+    pub prior: Option<Vec<Vec<u8>>>,
     pub stats: std::collections::BTreeMap<String, u64>,
 }
 
@@ -81,7 +83,11 @@ pub fn enc_event(
     all_slots: bool,
 ) -> (usize, Option<Vec<Vec<u8>>>) {
     ops::poison_on(ctx.seed ^ ctx.counter);
-    let res = with_engine!(engine, E, { encode_round::<E>(kind, k, r, orig) });
+    let prior = ctx.prior.take();
+    let res = match (&prior, kind) {
+        (Some(p), Some(kd)) => with_engine!(engine, E, { ops::encode_rounds::<E>(kd, k, r, &[p.as_slice(), orig]) }),
+        _ => with_engine!(engine, E, { encode_round::<E>(kind, k, r, orig) }),
+    };
     let sb = orig.first().map_or(0, Vec::len);
     let id = ctx.next_id();
     let rate = rate_used(kind, k, r);
@@ -239,6 +245,26 @@ fn family_c02(ctx: &mut Ctx) {
                     enc_event(ctx, e, kd, k, r, &orig, None, false);
                 }
             }
+        }
+    }
+    // (1b) the code is a function of the data alone: a second (third) round on the same object, no reset in between
+    for (ci, (rate, k, r, sb)) in [("low", 3usize, 5usize, 2usize), ("low", 5, 9, 66), ("low", 11, 40, 6), ("low", 100, 300, 2), ("low", 6, 3, 64), ("high", 5, 3, 130),
+        ("high", 10, 8, 2), ("high", 3, 8, 66), ("high", 300, 100, 2), ("low", 2, 3, 64), ("high", 17, 7, 34), ("low", 7, 17, 192)].into_iter().enumerate()
+    {
+        if !crate::dut::supports_rate(rate, k, r) {
+            continue;
+        }
+        let dr = ops::default_rate_of(k, r).unwrap_or("none");
+        for (ei, e) in engines.iter().enumerate() {
+            if !ctx.thorough && (ei + ci + ctx.seed as usize) % 2 == 0 {
+                continue;
+            }
+            let kinds: Vec<Option<Kind>> = ops::kinds_for(rate, dr, e).into_iter().filter(Option::is_some).collect();
+            let kd = kinds[(ei + ci) % kinds.len()];
+            let first = originals(ctx.seed, 0x2B00 + ctx.counter, k, sb);
+            let orig = originals(ctx.seed, 0x2B80 + ctx.counter, k, sb);
+            ctx.prior = Some(first);
+            enc_event(ctx, e, kd, k, r, &orig, None, false);
         }
     }
     // (2) random (k, r) up to 300, log-uniform
@@ -1143,6 +1169,36 @@ fn family_c13(ctx: &mut Ctx) {
     }
 }
 
+/// C13 with multi-block shards on every engine (unrolled / table-driven paths that depend on the shard length).
+fn family_c13_large(ctx: &mut Ctx) {
+    let engines = ctx.engines.clone();
+    let mut rng = util::rng(ctx.seed, 1313);
+    let sizes: &[usize] = if ctx.thorough { &[320, 448, 704, 1088, 2048, 2114, 4160, 8256] } else { &[320, 448, 1088, 2048, 2114, 4160] };
+    for (si, sb) in sizes.iter().copied().enumerate() {
+        for (ei, e) in engines.iter().enumerate() {
+            let (rate, k, r) = [("high", 3usize, 2usize), ("low", 2, 3), ("high", 5, 3), ("low", 3, 5)][(si + ei) % 4];
+            let dr = ops::default_rate_of(k, r).unwrap_or("none");
+            let kd = *ops::kinds_for(rate, dr, e).choose(&mut rng).unwrap();
+            let g = 100_000 + (si * 16 + ei) as i64;
+            ctx.group = Some(g);
+            let a = originals(ctx.seed, 0x1300 + (si * 16 + ei) as u64 * 2, k, sb);
+            let b = originals(ctx.seed, 0x1301 + (si * 16 + ei) as u64 * 2, k, sb);
+            let ab = xor_shards(&a, &b);
+            let (la, _) = enc_event(ctx, e, kd, k, r, &a, None, false);
+            let (lb, _) = enc_event(ctx, e, kd, k, r, &b, None, false);
+            let (lab, _) = enc_event(ctx, e, kd, k, r, &ab, None, false);
+            let here = ctx.trace.lines as i64 + 1;
+            ctx.trace.line(&Obj::new().str("ev", "lin").int("g", g).int("a", la as i64 - here).int("b", lb as i64 - here).int("ab", lab as i64 - here).done());
+            let c: u16 = rng.gen_range(2..=u16::MAX);
+            let ca = scale_shards(&a, c);
+            let (lca, _) = enc_event(ctx, e, kd, k, r, &ca, None, false);
+            let here = ctx.trace.lines as i64 + 1;
+            ctx.trace.line(&Obj::new().str("ev", "scal").int("g", g).int("a", la as i64 - here).int("ca", lca as i64 - here).int("c", i64::from(c)).done());
+            ctx.group = None;
+        }
+    }
+}
+
 fn family_c04(ctx: &mut Ctx) {
     let engines = ctx.engines.clone();
     let mut rng = util::rng(ctx.seed, 4);
@@ -1256,6 +1312,7 @@ pub fn main(args: &Args) -> i32 {
         engines,
         counter: 0,
         group: None,
+        prior: None,
         stats: Default::default(),
     };
     for fam in args.req("family").split(',') {
@@ -1271,7 +1328,10 @@ pub fn main(args: &Args) -> i32 {
             "twins" => family_twins(&mut ctx),
             "c11" => family_c11(&mut ctx),
             "c12" => family_c12(&mut ctx),
-            "c13" => family_c13(&mut ctx),
+            "c13" => {
+                family_c13(&mut ctx);
+                family_c13_large(&mut ctx);
+            }
             other => {
                 eprintln!("unknown family {other}");
                 return 2;
